@@ -194,6 +194,11 @@ def install(it, fs):
 
     def m_load(kind):
         def fn(it2, a, k):
+            if len(a) != 1 or set(k) - {"cls"}:
+                # the model of a load is "all or nothing": either the complete view or an exception.  That is a fact
+                # about json.load / pickle.load called with the file (and the decoder class) only; a decoder that is
+                # handed anything else (the live registry, hooks) can act before the document is known to be complete
+                raise Unsupported(f"{kind}.load with arguments outside the model: {sorted(k)}")
             fh = a[0]
             c = fh.ino.cur
             if it2.branch(good(c)):
